@@ -408,10 +408,6 @@ func (j *caseJudge) judge(in *inst, c *ecase, t *term) {
 
 // runCases evaluates all cases under one instantiation.
 func (j *caseJudge) runCases(in *inst, cases []*ecase, terms []*term) {
-	in.memo = map[string]*value{}
-	in.nfCanon = map[string][]byte{}
-	in.nfTerm = map[string]string{}
-	in.canonNF = map[string]string{}
 	var sel []int
 	for i, t := range terms {
 		if in.Std {
